@@ -81,20 +81,32 @@ Lemma push_fields : forall r s,
   allocatable (push r s) = allocatable s /\ next_inf (push r s) = next_inf s /\
   reserved (push r s) = reserved s /\ allow_inf (push r s) = allow_inf s.
 Proof.
-  intros r s. unfold push. destruct ((is_reserved r s || negb (memZ r (allocatable s))) && (0 <=? r));
+  intros r s. unfold push. destruct (is_reserved r s || ((0 <=? r) && negb (memZ r (allocatable s))));
     simpl; repeat split; reflexivity.
+Qed.
+
+Lemma push_cases_g : forall r s,
+  (available (push r s) = available s /\ (is_reserved r s = true \/ (0 <= r /\ ~ In r (allocatable s))))
+  \/ (available (push r s) = remove_first r (available s) ++ [r] /\ is_reserved r s = false
+      /\ (In r (allocatable s) \/ r < 0)).
+Proof.
+  intros r s. unfold push. destruct (is_reserved r s) eqn:Er; simpl.
+  - left. split; [reflexivity | left; reflexivity].
+  - destruct (0 <=? r) eqn:E0; simpl.
+    + destruct (memZ r (allocatable s)) eqn:Em; simpl.
+      * right. split; [reflexivity|]. split; [reflexivity|]. left. apply memZ_In. exact Em.
+      * left. split; [reflexivity|]. right. split; [apply Z.leb_le; exact E0 | apply memZ_false; exact Em].
+    + right. split; [reflexivity|]. split; [reflexivity|]. right. apply Z.leb_gt. exact E0.
 Qed.
 
 Lemma push_cases : forall r s, reserved s = [] ->
   (available (push r s) = available s /\ ~ In r (allocatable s) /\ 0 <= r)
   \/ (available (push r s) = remove_first r (available s) ++ [r] /\ (In r (allocatable s) \/ r < 0)).
 Proof.
-  intros r s Hres. unfold push, is_reserved. rewrite Hres. simpl.
-  destruct (memZ r (allocatable s)) eqn:Em; simpl.
-  - right. split; [reflexivity|]. left. apply memZ_In. exact Em.
-  - destruct (0 <=? r) eqn:E0.
-    + left. split; [reflexivity|]. split; [apply memZ_false; exact Em | apply Z.leb_le; exact E0].
-    + right. split; [reflexivity|]. right. apply Z.leb_gt. exact E0.
+  intros r s Hres. destruct (push_cases_g r s) as [[Hp [Hr|[H0 Hn]]]|[Hp [_ Hor]]].
+  - unfold is_reserved in Hr. rewrite Hres in Hr. discriminate.
+  - left. repeat split; assumption.
+  - right. split; assumption.
 Qed.
 
 (* ---- pop ---- *)
@@ -125,14 +137,30 @@ Proof.
     left. split; [|reflexivity]. apply rev_cons_inv. exact Erev.
 Qed.
 
-(* ---- exclude / include / get ---- *)
+Lemma pop_cases_g : forall s r s', pop s = Ok (r, s') ->
+  allocatable s' = allocatable s /\ reserved s' = reserved s /\ allow_inf s' = allow_inf s /\
+  is_reserved r s = false /\
+  ((available s = available s' ++ [r] /\ next_inf s' = next_inf s)
+   \/ (available s = [] /\ available s' = [] /\ allow_inf s = true /\
+       r = - next_inf s - 1 /\ next_inf s' = next_inf s + 1)).
+Proof.
+  intros s r s' Hpop. unfold pop in Hpop.
+  destruct (rev (available s)) as [|x rest] eqn:Erev.
+  - destruct (allow_inf s) eqn:Eallow; simpl in Hpop; [|discriminate].
+    match type of Hpop with (if ?b then _ else _) = _ => destruct b eqn:Eb end; [discriminate|].
+    inversion Hpop; subst; clear Hpop. simpl.
+    repeat split; try assumption; try reflexivity.
+    right. assert (Ha : available s = []).
+    { rewrite <- (rev_involutive (available s)). rewrite Erev. reflexivity. }
+    repeat split; try assumption; reflexivity.
+  - simpl in Hpop.
+    match type of Hpop with (if ?b then _ else _) = _ => destruct b eqn:Eb end; [discriminate|].
+    inversion Hpop; subst; clear Hpop. simpl.
+    repeat split; try assumption; try reflexivity.
+    left. split; [|reflexivity]. apply rev_cons_inv. exact Erev.
+Qed.
 
-Lemma exclude_fields : forall r s,
-  available (exclude_register r s) = remove_first r (available s) /\
-  allocatable (exclude_register r s) = remove_first r (allocatable s) /\
-  reserved (exclude_register r s) = reserved s /\ next_inf (exclude_register r s) = next_inf s /\
-  allow_inf (exclude_register r s) = allow_inf s.
-Proof. intros r s. unfold exclude_register. simpl. repeat split; reflexivity. Qed.
+(* ---- exclude / include / get ---- *)
 
 (* shape invariant of a stack built by `get` and trimmed by `exclude` *)
 Record base_ok (s : rstack) : Prop := {
@@ -220,35 +248,87 @@ Proof.
   intros x Hx. destruct (Hsub x Hx) as [H|H]; [destruct H | exact H].
 Qed.
 
-Lemma exclude_base_ok : forall r s, base_ok s -> base_ok (exclude_register r s).
+(* ---- assoc lists of reservations ---- *)
+Lemma assoc_incr_keys : forall r l k, In k (map fst (assoc_incr r l)) <-> In k (map fst l) \/ k = r.
 Proof.
-  intros r s [Hav Hal Hsub Hres Hnext].
-  destruct (exclude_fields r s) as [Fav [Fal [Fr [Fn Fi]]]].
-  constructor.
-  - rewrite Fav. apply NoDup_remove_first. exact Hav.
-  - rewrite Fal. apply NoDup_remove_first. exact Hal.
-  - intros x Hx. rewrite Fav in Hx. rewrite Fal.
-    apply In_remove_first_neq.
-    + apply Hsub. eapply In_remove_first. exact Hx.
-    + intro Heq. subst. exact (not_In_remove_first _ _ Hav Hx).
-  - rewrite Fr. exact Hres.
-  - rewrite Fn. exact Hnext.
+  intros r l. induction l as [|[k0 n] t IH]; intros k; simpl.
+  - split; [intros [H|[]]; right; symmetry; exact H | intros [[]|H]; left; symmetry; exact H].
+  - destruct (k0 =? r) eqn:E; simpl.
+    + apply Z.eqb_eq in E. subst. split; [intros H; left; exact H | intros [H|H]; [exact H | left; symmetry; exact H]].
+    + rewrite IH. tauto.
 Qed.
 
-Lemma exclude_all : forall regs s, base_ok s ->
+(* the stack after `get` and any number of `exclude_register` calls *)
+Record excl_ok (s : rstack) : Prop := {
+  e_nodup_av : NoDup (available s);
+  e_nodup_al : NoDup (allocatable s);
+  e_sub : forall r, In r (available s) -> In r (allocatable s);
+  e_res_neg : forall k, In k (map fst (reserved s)) -> k < 0 /\ - k - 1 < next_inf s;
+  e_next : 0 <= next_inf s }.
+
+Lemma base_excl_ok : forall s, base_ok s -> excl_ok s.
+Proof.
+  intros s [Hav Hal Hsub Hres Hnext]. constructor; try assumption.
+  - rewrite Hres. intros k [].
+  - rewrite Hnext. lia.
+Qed.
+
+Lemma exclude_excl_ok : forall r s, excl_ok s -> excl_ok (exclude_register r s)
+  /\ allocatable (exclude_register r s) = remove_first r (allocatable s)
+  /\ allow_inf (exclude_register r s) = allow_inf s
+  /\ (forall k, In k (map fst (reserved (exclude_register r s))) <-> In k (map fst (reserved s)) \/ (k = r /\ r < 0)).
+Proof.
+  intros r s [Hav Hal Hsub Hres Hnext]. unfold exclude_register, exclude_register_old.
+  destruct (r <? 0) eqn:Er; simpl.
+  - apply Z.ltb_lt in Er. split; [|split; [reflexivity | split; [reflexivity|]]].
+    + constructor; simpl.
+      * apply NoDup_remove_first. exact Hav.
+      * apply NoDup_remove_first. exact Hal.
+      * intros x Hx. apply In_remove_first_neq.
+        -- apply Hsub. eapply In_remove_first. exact Hx.
+        -- intro Heq. subst. exact (not_In_remove_first _ _ Hav Hx).
+      * intros k Hk. apply assoc_incr_keys in Hk. destruct Hk as [Hk|Hk].
+        -- destruct (Hres k Hk) as [H1 H2]. split; [exact H1 | lia].
+        -- subst k. split; [exact Er | lia].
+      * lia.
+    + intros k. rewrite assoc_incr_keys. split; intros [H|H]; [left; exact H | right; split; [exact H | exact Er]
+                                                             | left; exact H | right; exact (proj1 H)].
+  - apply Z.ltb_ge in Er. split; [|split; [reflexivity | split; [reflexivity|]]].
+    + constructor; simpl.
+      * apply NoDup_remove_first. exact Hav.
+      * apply NoDup_remove_first. exact Hal.
+      * intros x Hx. apply In_remove_first_neq.
+        -- apply Hsub. eapply In_remove_first. exact Hx.
+        -- intro Heq. subst. exact (not_In_remove_first _ _ Hav Hx).
+      * exact Hres.
+      * exact Hnext.
+    + intros k. split; [intros H; left; exact H | intros [H|[_ H]]; [exact H | lia]].
+Qed.
+
+Lemma exclude_all : forall regs s, excl_ok s ->
   let s' := fold_left (fun s r => exclude_register r s) regs s in
-  base_ok s' /\ (forall x, In x (allocatable s') -> In x (allocatable s) /\ ~ In x regs)
-  /\ allow_inf s' = allow_inf s.
+  excl_ok s' /\ (forall x, In x (allocatable s') -> In x (allocatable s) /\ ~ In x regs)
+  /\ allow_inf s' = allow_inf s
+  /\ (forall k, In k (map fst (reserved s')) <-> In k (map fst (reserved s)) \/ (In k regs /\ k < 0)).
 Proof.
   induction regs as [|r t IH]; intros s Hs; simpl.
-  - split; [exact Hs|]. split; [|reflexivity]. intros x Hx. split; [exact Hx | tauto].
-  - pose proof (exclude_base_ok r s Hs) as Hs1.
-    destruct (IH _ Hs1) as [Hb [Hsub Hal]].
-    destruct (exclude_fields r s) as [_ [Fal [_ [_ Fi]]]].
-    split; [exact Hb|]. split.
+  - split; [exact Hs|]. split; [intros x Hx; split; [exact Hx | tauto]|]. split; [reflexivity|].
+    intros k. split; [intros H; left; exact H | intros [H|[[] _]]; exact H].
+  - destruct (exclude_excl_ok r s Hs) as [Hs1 [Fal [Fi Fres]]].
+    destruct (IH _ Hs1) as [Hb [Hsub [Hal Hr]]].
+    split; [exact Hb|]. split; [|split].
     + intros x Hx. destruct (Hsub x Hx) as [H1 H2]. rewrite Fal in H1. split.
       * eapply In_remove_first. exact H1.
       * intros [Hc|Hc]; [|exact (H2 Hc)]. subst.
-        exact (not_In_remove_first _ _ (b_nodup_al _ Hs) H1).
+        exact (not_In_remove_first _ _ (e_nodup_al _ Hs) H1).
     + simpl in Hal. rewrite Hal. exact Fi.
+    + intros k. simpl in Hr. rewrite Hr. rewrite Fres. split.
+      * intros [[H|[H1 H2]]|[H1 H2]].
+        -- left. exact H.
+        -- right. split; [left; symmetry; exact H1 | subst; exact H2].
+        -- right. split; [right; exact H1 | exact H2].
+      * intros [H|[[H1|H1] H2]].
+        -- left. left. exact H.
+        -- left. right. split; [symmetry; exact H1 | subst; exact H2].
+        -- right. split; assumption.
 Qed.
